@@ -69,6 +69,14 @@ pub fn configs(tier: Tier, seed: u64) -> Vec<Config> {
         add(3, 0, 0);
         add(3, 2, 1);
     }
+    // several chunks of garbled gates (only the later chunks' messages are altered, see build_cases)
+    {
+        let c = crate::circuits::and_chain(2, 1100);
+        let case = MpcCase { inputs: c.inputs_from_mask(0b11), circ: c, p_eval: 0, p_out: vec![0, 1], tmp_mask: 0 };
+        let s = mix(seed, 8111);
+        let honest = run_default(&ExecCfg::new(2, s), mpc_body(&case, 800));
+        v.push(Config { name: "chain1100/n2/corrupt1/eval0".into(), case, corrupted: 1, seed: s, honest });
+    }
     v
 }
 
@@ -81,13 +89,18 @@ pub fn build_cases(tier: Tier, cfgs: &[Config]) -> Result<Vec<Case>, String> {
         let cap = if tier.is_thorough() { 6 } else { 3 };
         let mut seen_label_to: std::collections::HashMap<(String, usize), usize> = Default::default();
         let sent: Vec<(usize, &crate::exec::MsgRec)> = cfg.honest.msgs.iter().enumerate().filter(|(_, m)| m.from == cfg.corrupted).collect();
+        // the multi-chunk configuration: only the second and later chunks of garbled gates
+        let big = cfg.case.circ.and_count() > 64;
         for (mi, m) in &sent {
+            if big && !(m.label == "preprocessed gates" && m.ord >= 1) {
+                continue;
+            }
             let ty = msg_type(&m.label).unwrap();
             let val = decode_msg(&m.label, &m.bytes)?;
             let occ = seen_label_to.entry((m.label.clone(), m.to)).or_insert(0);
             *occ += 1;
             // n=3 quick: full menu only for the first two occurrences of a label per recipient
-            let reduced = n >= 3 && !tier.is_thorough() && *occ > 1;
+            let reduced = (n >= 3 && !tier.is_thorough() && *occ > 1) || big;
             let mut muts = byte_level(&ty, &val, &m.bytes, mix(cfg.seed, *mi as u64), cap);
             muts.extend(structural(&ty, &val, cap, true, &[]));
             if reduced {
@@ -100,6 +113,16 @@ pub fn build_cases(tier: Tier, cfgs: &[Config]) -> Result<Vec<Case>, String> {
                 }
                 cases.push(Case { cfg: ci, kind: Kind::Mut { msg: *mi, m: mm } });
             }
+        }
+        if big {
+            // the peer vanishes right before / after the later chunks
+            for (k, (_, m)) in sent.iter().enumerate() {
+                if m.label == "preprocessed gates" && m.ord >= 1 {
+                    cases.push(Case { cfg: ci, kind: Kind::Crash(k) });
+                    cases.push(Case { cfg: ci, kind: Kind::Crash(k + 1) });
+                }
+            }
+            continue;
         }
         for k in 0..=sent.len() {
             cases.push(Case { cfg: ci, kind: Kind::Crash(k) });
